@@ -185,7 +185,17 @@ fn run_scenario(sc: &Scenario<'_>, rep: &mut Report) {
             rep.seen("page_list_lengths", n_pages.min(4) as u64);
             rep.max("longest_page_list", n_pages as f64);
             let pages = mk_pages(sc.ty, &mut rng, n_pages);
-            let out = ctl::run_op(&sign, &Op::SendPages, &pages);
+            // the second list is pulled lazily by an application that looks at the sign on the bus (shared borrow, then a
+            // mutable one) every time a page is pulled: the controller holds the bus only while it talks
+            let out = if round == 1 {
+                rep.count("page_lists_pulled_by_an_application_that_watches_the_bus");
+                ctl::send_pages_lazily(&sign, &pages, &|| {
+                    let seen = bus.borrow().sign(pos).pages().len();
+                    let _ = (seen, bus.borrow_mut().sign(pos).state());
+                })
+            } else {
+                ctl::run_op(&sign, &Op::SendPages, &pages)
+            };
             steps.push(format!("send_pages({}) -> {}", n_pages, out.show()));
             check!(out == SignOut::OkStyle { automatic: sc.auto }, "send_pages_result", "send_pages returned {}, the sign flips {}", out.show(), if sc.auto { "automatically" } else { "manually" });
             if !fails.is_empty() {
@@ -435,6 +445,7 @@ pub fn run(ctx: &Ctx) -> Outcome {
     let cells = report.set_len("prior_state_x_type");
     let floors = vec![
         floor("all jobs (11 types x 2 styles x {explored, abandoned} + 11 long lists)", report.get("jobs_done") == 55, report.get("jobs_done")),
+        floor("page lists pulled lazily by an application that borrows the bus between pages", report.get("page_lists_pulled_by_an_application_that_watches_the_bus") > 1000, report.get("page_lists_pulled_by_an_application_that_watches_the_bus")),
         floor("two controller objects for one sign taking turns", report.get("two_controllers_taking_turns") > 1000, report.get("two_controllers_taking_turns")),
         floor("other signs on the bus left in the middle of a transfer", report.get("bystanders_left_mid_transfer") > 1000, report.get("bystanders_left_mid_transfer")),
         floor("page lists below and above 65536 chunks for every type", report.get("long_page_lists") == 22 && report.maxs.get("most_chunks_in_one_transfer").copied().unwrap_or(0.0) > 65_536.0, report.get("long_page_lists")),
